@@ -95,8 +95,7 @@ def gate(R):
             x = o
         return x, methods
 
-    for r in rets:
-        for l in path_conditions(R, g, rd, g.entry, r):
+    def flags_of(l):
             status = upgrade = present = equal = False
             for (tn, pol, forms) in l.groups:
                 e = tn.ast
@@ -126,6 +125,19 @@ def gate(R):
                     equal = True
                     R._c10_cmp = (sides, origins, txt)
                     outer_methods[txt] = meths[0] + meths[1]
+            return status, upgrade, present, equal
+
+    # the converse: a reply that passes all four tests is never refused by on_response itself
+    for rn in g.live_nodes():
+        if rn.kind == 'stmt' and isinstance(rn.ast, ast.Raise):
+            bad = [sorted(x[0] for x in l if x[1])[:8] for l in path_conditions(R, g, rd, g.entry, rn) if all(flags_of(l))]
+            R.ob('C10.gate', 'a correct upgrade reply is not refused', not bad,
+                 'on_response raises `%s` on a path on which status, Upgrade and Sec-WebSocket-Accept have all been found '
+                 'correct (%s): a correct reply yields Rejected instead of Ready' % (U(rn.ast.exc)[:60], bad[:1]), func=f,
+                 node=rn.ast, construct='raise after the upgrade reply was accepted')
+    for r in rets:
+        for l in path_conditions(R, g, rd, g.entry, r):
+            status, upgrade, present, equal = flags_of(l)
             for name, okk in (('status == 101', status), ('Upgrade == websocket (case-folded)', upgrade),
                               ('Accept present', present), ('Accept == challenge', equal)):
                 R.ob('C10.gate', 'on_response returns only after: ' + name, okk,
@@ -432,12 +444,44 @@ def request(R):
     R.ob('C10.request', 'resource = (path or "/") plus the optional query', okq,
          'self.resource is built as %s' % [U(n.ast.value) for n in rs], func=init, node=(withq[0].ast if withq else None),
          construct='resource construction')
-    port = [s for s in own_nodes(init.node) if isinstance(s, ast.Assign) and U(s.targets[0]) == 'self.port']
-    okp = len(port) == 1 and isinstance(port[0].value, ast.IfExp) and U(port[0].value.test) == '_url.port' \
-        and isinstance(port[0].value.orelse, ast.IfExp) and fold(R, port[0].value.orelse.body, None) == 443 \
-        and fold(R, port[0].value.orelse.orelse, None) == 80 and "'wss'" in U(port[0].value.orelse.test)
-    R.ob('C10.request', 'default ports 443 (wss) / 80 (ws)', okp, 'self.port = %s' % (U(port[0].value) if port else None),
-         func=init, node=(port[0] if port else None), construct='default port')
+    target_port(R, 'C10.request')
+
+
+def target_port(R, RID):
+    """self.port: the URL's explicit port whenever it has one, else 443 for wss and 80 for ws - decided by cases, whatever the
+    spelling (nested conditional expressions, `or`, if statements)."""
+    from .common import value_cases
+    init = R.func(WS + '.__init__')
+    gi = R.cfg(WS + '.__init__')
+    port = [n for n in gi.live_nodes() if n.kind == 'stmt' and isinstance(n.ast, ast.Assign) and any(
+        U(t) == 'self.port' for t in n.ast.targets)]
+    need(port, 'WebSocket.__init__: self.port is not assigned')
+    seen = set()
+    okp = True
+    detail = []
+    for pn in port:
+        gl = {(t, p) for (t, p, _) in guards_of(gi, pn)}
+        for (conds, val, site) in value_cases(R, gi, pn, pn.ast.value):
+            c = set(conds) | gl
+            v = fold(R, val, gi.ctx)
+            has = ('_url.port', True) in c or ('_url.port is None', False) in c or ('_url.port is not None', True) in c
+            hasnt = ('_url.port', False) in c or ('_url.port is None', True) in c or ('_url.port is not None', False) in c
+            wss = any(("'wss'" in t and '==' in t and p) or ("'ws'" in t and "'wss'" not in t and '==' in t and not p)
+                      or (t.endswith('is_secure') and p) for (t, p) in c)
+            ws = any(("'wss'" in t and '==' in t and not p) or ("'ws'" in t and "'wss'" not in t and '==' in t and p)
+                     or (t.endswith('is_secure') and not p) for (t, p) in c)
+            detail.append((sorted(c)[:4], U(val)))
+            if U(val) in ('_url.port', 'int(_url.port)') and has:
+                seen.add('explicit')
+            elif v == 443 and hasnt and wss and not ws:
+                seen.add('wss')
+            elif v == 80 and hasnt and ws and not wss:
+                seen.add('ws')
+            else:
+                okp = False
+    R.ob(RID, 'port: the explicit one, else 443 (wss) / 80 (ws)', okp and seen == {'explicit', 'wss', 'ws'},
+         'self.port by cases: %s - an explicit port must win for both schemes' % detail[:4], func=init, node=port[0].ast,
+         construct='target port')
 
 
 def limit(R, RID='C10.limit', recv='frame_parser.ClientFrameParser'):
